@@ -55,7 +55,7 @@ var nonASCII = []string{"é", "名", "ß", "ſ", "K", "٣", "²", "€", " ", "
 var literals = []string{"'x'", "''", "'it''s'", "\"d\"", "'a,b'", "'(' ", "')'", "'$T.a'", "'&T.*'", "'--'", "'/* */'", "\"'\"", "'\"'", "'\n'", "''''", "'(*) VALUES ($T.*)'"}
 var comments = []string{"-- c\n", "--\n", "-- $T.a\n", "-- 'q\n", "/* c */", "/**/", "/* $T.a */", "/* ' */", "/* -- */", "-- /* \n", "/* \n */", "--x", "/* unterminated", "-- &T.* AS\n", "/*/", "/* * / */"}
 var numbers = []string{"1", "42", "3.14", "-1", "0x1F", "1e5", "NULL", "TRUE"}
-var funcs = []string{"count(*)", "max(a)", "f(a, b)", "coalesce(a, 'x')", "f(g(1), ')')", "f('--', \"(\")", "now()", "f(/* ) */ 1)", "f(-- )\n 2)", "substr(name, 1, 2)", "f($T.a)", "f((1),(2))"}
+var funcs = []string{"count('x)", "upper('anon)", "f(\"a)", "g(1, 'it''s'')", "count(*)", "max(a)", "f(a, b)", "coalesce(a, 'x')", "f(g(1), ')')", "f('--', \"(\")", "now()", "f(/* ) */ 1)", "f(-- )\n 2)", "substr(name, 1, 2)", "f($T.a)", "f((1),(2))"}
 
 func (g *G) blank() string {
 	if g.R.Chance(1, 14) {
@@ -313,6 +313,19 @@ func (g *G) insertExpr() string {
 		srcs := []string{"$" + t.Name + ".*"}
 		if g.R.Chance(1, 3) {
 			srcs = append(srcs, "$"+g.typ("map").Name+".*")
+			// spare columns, which only the map given with an asterisk can supply (wherever
+			// it is written among the sources)
+			for k := g.R.Intn(3); k > 0; k-- {
+				sp := g.R.Pick([]string{"k", "extra", "spare_1", "note", "zz9"})
+				if !used[sp] {
+					used[sp] = true
+					if g.R.Chance(1, 2) {
+						cols = cols[:len(cols)-1] + g.sep() + sp + ")"
+					} else {
+						cols = "(" + sp + g.sep() + cols[1:]
+					}
+				}
+			}
 		}
 		if g.R.Chance(1, 4) {
 			t2 := g.typ("member")
